@@ -1,5 +1,8 @@
 //! tx3-stackprobe front <file>: one hex-encoded source text per line; each is parsed and analysed on a
 //! 2 MiB thread (same reporting as below).
+//! tx3-stackprobe request <file>: one hex-encoded IR payload per line; each is wrapped into a resolve request
+//! ({"tir": {"content": <hex>, "encoding": "hex", "version": "v1beta0"}, "args": {}}) and handed to
+//! tx3_resolver::trp::parse_resolve_request on a 2 MiB thread (same reporting as below).
 //! tx3-stackprobe <file>: one hex-encoded IR payload per line; each is decoded with
 //! tx3_tir::encoding::from_bytes on a thread with Rust's default stack size for spawned threads (2 MiB),
 //! in an unoptimised build. Prints "<line> OK|ERR|PANIC" per payload and flushes, so that a stack
@@ -9,7 +12,8 @@ use std::io::Write;
 
 fn main() {
     let front = std::env::args().nth(1).as_deref() == Some("front");
-    let path = std::env::args().nth(if front { 2 } else { 1 }).expect("file");
+    let request = std::env::args().nth(1).as_deref() == Some("request");
+    let path = std::env::args().nth(if front || request { 2 } else { 1 }).expect("file");
     let text = std::fs::read_to_string(&path).expect("readable file");
     let out = std::io::stdout();
     for (i, line) in text.lines().enumerate() {
@@ -35,6 +39,12 @@ fn main() {
                             let _ = tx3_lang::analyzing::analyze(&mut p);
                             true
                         }
+                        Err(_) => false,
+                    }
+                } else if request {
+                    let doc = serde_json::json!({"tir": {"content": hex::encode(&bytes), "encoding": "hex", "version": "v1beta0"}, "args": {}});
+                    match serde_json::from_value::<tx3_resolver::trp::ResolveParams>(doc) {
+                        Ok(params) => tx3_resolver::trp::parse_resolve_request(params).is_ok(),
                         Err(_) => false,
                     }
                 } else {
